@@ -208,7 +208,7 @@ def _signature(h, si, spec):
 
 def _both(ctx, strength):
     rnd = random.Random(ctx.seed)
-    n_rand, length = (12, 12) if strength == "thorough" else (4, 10)
+    n_rand, length = (12, 12) if strength == "thorough" else (3, 10)
     hs = [list(h) for h in LEADS] + [gen_history(rnd, rnd.randint(6, length)) for _ in range(n_rand)]
     specs, order = [], []
     for hi, h in enumerate(hs):
@@ -220,7 +220,7 @@ def _both(ctx, strength):
     # truly fresh interpreters validate the hand-reset emulation (a sample in the quick tier)
     # (every truly fresh interpreter pays the full JIT warm-up: 6 of them in the thorough tier, 2 in the quick one)
     pick = [i for i, s in enumerate(specs) if s["kind"] in ("KDense", "KFmm")]
-    sample = sorted(set((pick[:3] + pick[-3:]) if strength == "thorough" else pick[:2]))
+    sample = sorted(set((pick[:3] + pick[-3:]) if strength == "thorough" else pick[:1]))
     for i in sample:
         jobs.append(("true%d" % i, {"mode": "fresh", "specs": [specs[i]], "emulate": False}))
     with ThreadPoolExecutor(max_workers=4 if strength != "thorough" else 6) as ex:
@@ -352,7 +352,8 @@ META = {
                   "later steps, repeated weak_form is idempotent; every non-FMM assembler of the current source reads all "
                   "parameters through its own object, hence (all histories) dense/sparse/singular/dense-potential results are "
                   "a function of the own parameter object at construction/first assembly, equal to what a fresh process "
-                  "computes; binding times. Refuted on the pinned tree, with witness histories: explicit parameters for FMM "
+                  "computes; binding times; for ANY tables whose FMM cache keys contain all build inputs the caches are transparent "
+                  "(all histories). Refuted on the pinned tree, with witness histories: explicit parameters for FMM "
                   "operators, sufficiency of both FMM cache keys, the mass-matrix memo; clearing the cache restores "
                   "independence.",
     "level_note": "Trusted: Coq kernel; translators/cachekeys.py and its list of assembler functions; the harness and the "
